@@ -85,6 +85,16 @@ def build(gdim=2):
     z = um.m_zero((), (i.id, j.id), (2, 3))
     add("conditional(f<g, Zero[i,j], B[i,j]) * B[i,j]", mult(um.m_conditional(c, z, idx(B, i, j)), idx(B, i, j)))
     add("f/g + f**2", um.m_sum(um.m_division(f, g), um.m_power(f, um.m_scalar(2))))
+    # index counts and fixed index values are different namespaces: indices whose counts are as small as the
+    # fixed components next to them (the predefined ufl.i, ufl.j, ... have counts 0..7)
+    i0, i1, i2 = new_index(0), new_index(1), new_index(2)
+    ctb = um.m_component_tensor(um.m_sum(idx(u, i2), idx(v, i2)), MI((i2,)))  # body is not a plain Indexed
+    add("T[1] * (T[j]*v[j]), T = as_tensor(u[k]+v[k], (k,)), count(j) == 1", mult(idx(ctb, 1), mult(idx(ctb, i1), idx(v, i1))))
+    add("T[0]*T[j] (free j), count(j) == 0", mult(idx(ctb, 0), idx(ctb, i0)))
+    add("T[j]*T[1] (free j), count(j) == 1", mult(idx(ctb, i1), idx(ctb, 1)))
+    ct2 = um.m_component_tensor(um.m_sum(idx(A, i2, i1), idx(A, i1, i2)), MI((i2, i1)))
+    add("S[1,j]*S[j,0] + S[0,1], S = as_tensor(A[k,l]+A[l,k], (k,l)), counts 0..2", um.m_sum(mult(idx(ct2, 1, i0), idx(ct2, i0, 0)), idx(ct2, 0, 1)))
+    add("A[i,i]*u[0] + A[0,j]*u[j] - indices with counts 0 and 1", um.m_sum(mult(idx(A, i0, i0), idx(u, 0)), mult(idx(A, 0, i1), idx(u, i1))))
     terms = dict(f=f, g=g, u=u, v=v, w=w, A=A, B=B, C=C, i=i, j=j, k=k, l=l)
     return terms, E
 
